@@ -188,6 +188,96 @@ def copy_routine_paths(chk, prog, rule="H6-paths"):
     return n
 
 
+def _writes_directly(prog, t, k, depth=0, _memo=None):
+    """t stores into the object its k-th parameter points to (itself or in a project function it hands the parameter to);
+    calls through the object's own function pointers are its methods and do not count"""
+    _memo = _memo if _memo is not None else {}
+    key = (t, k)
+    if key in _memo:
+        return _memo[key]
+    _memo[key] = False
+    if t.decl or k >= len(t.params):
+        return False
+    t.build()
+    par = t.params[k]
+
+    def rooted(p):
+        p = strip_casts(p)
+        for _ in range(8):
+            if p is par:
+                return True
+            if p.is_inst and p.op == "getelementptr":
+                p = strip_casts(p.ops[0])
+                continue
+            return False
+        return False
+    res = False
+    for i in t.insts():
+        if i.op == "store" and rooted(i.ops[1]):
+            res = True
+        elif i.op == "call" and i.callee:
+            nm = norm_callee(i.callee)
+            if nm in ("memset", "memcpy", "memmove") and i.ops and rooted(i.ops[0]):
+                res = True
+            elif depth < 2:
+                g = prog.fn(i.callee, t.unit)
+                if g is not None and not g.decl:
+                    for j, a in enumerate(i.ops):
+                        if rooted(a) and _writes_directly(prog, g, j, depth + 1, _memo):
+                            res = True
+    _memo[key] = res
+    return res
+
+
+def rule_shared_mutable(chk, prog, hooks):
+    """H10-shared: a copy hook may share a sub-object with the original (sqfs_grab: one object, two owners) only if nothing
+    changes that sub-object afterwards.  For every member a copy hook fills with sqfs_grab(original->member): no function of
+    the program hands `obj->member` of an object of that type to a project function that writes through that parameter
+    (e.g. sqfs_frag_table_read refills the table in place).  A member that is refilled in place has to be sqfs_copy'ed."""
+    from ..memver import _call_writes_arg
+    n = 0
+    for h in hooks:
+        h.build()
+        for c in h.calls():
+            if norm_callee(c.callee) != "sqfs_grab" or not c.ops:
+                continue
+            src = strip_casts(c.ops[0])
+            if not (src.is_inst and src.op == "load"):
+                continue
+            q = strip_casts(src.ops[0])
+            if not (q.is_inst and q.op == "getelementptr" and q.field()):
+                continue
+            fld_ = q.field()
+            n += 1
+            chk.analysed(h)
+            inst = "%s:%s" % (h.name, fld_[1])
+            bad = None
+            for g in prog.functions():
+                if g.decl or "/test/" in g.unit.src:
+                    continue
+                for x in g.build().calls():
+                    if not x.callee:
+                        continue
+                    t = prog.fn(x.callee, g.unit)
+                    if t is None or t.decl or norm_callee(x.callee) in ("sqfs_drop", "sqfs_destroy", "sqfs_grab", "sqfs_copy"):
+                        continue
+                    for k, a in enumerate(x.ops):
+                        v = strip_casts(a)
+                        if v.is_inst and v.op == "load":
+                            qq = strip_casts(v.ops[0])
+                            if qq.is_inst and qq.op == "getelementptr" and qq.field() and qq.field()[1] == fld_[1] and \
+                                    qq.field()[0].split(".")[1] == fld_[0].split(".")[1] and _writes_directly(prog, t, k):
+                                bad = (g, x)
+            if bad is None:
+                chk.ok("H10-shared", inst, c, "the shared sub-object is not written through by any function that is handed it as this member")
+            else:
+                g, x = bad
+                chk.violation("H10-shared", inst, c, "the copy shares '%s' with the original (sqfs_grab), but %s hands that member to %s, "
+                              "which writes through it: reloading through one of the two objects changes what the other "
+                              "answers" % (fld_[1], g.name, norm_callee(x.callee)))
+    return n
+
+
 def run(chk):
     prog = load_program("libsquashfs.la")
     chk.explanation = (
@@ -197,7 +287,7 @@ def run(chk):
         "at the same sqfs_object_init site yields the set of slots it releases. H1 header initialised on every "
         "success path, H2 every released slot re-acquired (or null, or exempt under the same immutable-flag "
         "predicate), H3 no pointer slot keeps aliasing the original, no write/release through a bit-copied "
-        "pointer (error paths included); container copy helpers are analysed with the same engine (H4). H5-state: fields that the library accumulates over an object's life (x = x +/- k somewhere) are taken over by nodes that a copy hook allocates (whole-node copy or field read from the source). H7-state: a copy hook that builds its object member by member (no wholesale memcpy) reads every scalar member the library writes during use from the original. H6-paths: every success path of a container copy routine f(T *dst, const T *src) reads the same source fields. K9-copytag: a copy that takes the tag of a block cache over takes the payload over too (or resets the tag). H8-reopen: a copy hook opens no path and creates no file of its own; H9-initagree: a copy hook that sets a codec library state up passes the configuration values the constructor passes.")
+        "pointer (error paths included); container copy helpers are analysed with the same engine (H4). H5-state: fields that the library accumulates over an object's life (x = x +/- k somewhere) are taken over by nodes that a copy hook allocates (whole-node copy or field read from the source). H7-state: a copy hook that builds its object member by member (no wholesale memcpy) reads every scalar member the library writes during use from the original. H6-paths: every success path of a container copy routine f(T *dst, const T *src) reads the same source fields. K9-copytag: a copy that takes the tag of a block cache over takes the payload over too (or resets the tag). H8-reopen: a copy hook opens no path and creates no file of its own; H9-initagree: a copy hook that sets a codec library state up passes the configuration values the constructor passes. H10-shared: a member that a copy hook shares with the original through sqfs_grab is not handed, as that member, to any function that writes through it.")
     chk.assumptions = [
         "library/codec functions behave as named in the tables of sa/copyflow.py (release / pure / writes-arg)",
         "behavioural equivalence of copy and original and leak freedom are not decided",
@@ -294,6 +384,8 @@ def run(chk):
     from .c10 import copy_tag_rule
     copy_tag_rule(chk, prog)
     chk.floor("K9-copytag", 1)
+    rule_shared_mutable(chk, prog, hooks)
+    chk.floor("H10-shared", 3)
     copy_routine_paths(chk, load_program("all"), "H6-paths")
     chk.floor("H6-paths", 3)
     chk.floor("H5-state", 3)
